@@ -106,7 +106,7 @@ def run(ctx):
     }
     ctx.assumptions += [
         "H (SHA-256 over serde_json of the hash view) is injective — hypothesis of every theorem, not an axiom",
-        "interface-visible edits are drawn from a catalogue of 10 variants of items no dependent uses (signature, field, variant, trait method, impl, item added/removed, return type, inherent impl)",
+        "interface-visible edits are drawn from a catalogue of 15 variants of items no dependent uses (signature, field, variant, trait method, impl, item added/removed, return type, inherent impl, and four pairs that differ only in the ORDER of struct fields, enum variants, trait methods, parameter types)",
         "an artefact is corrupted in at most one field between two rewrites",
     ]
     tb = ["Lean 4 kernel", "axioms: " + ",".join(ctx.proof["axioms"] or ["none"]),
